@@ -57,7 +57,7 @@ func init() {
 	Register(&Check{
 		ID:    "C17",
 		Level: "exploration",
-		Rule: "pairs (normal, --stub) for every vector of C01's service factor space departing from the base in <= 2 factors (quick) / <= 3 (thorough), C13's getter truth table rows, 20 literal kinds (incl. multi-line strings) x 5 positions, 10 rejected configurations of different classes and 10 boundary strings (empty, blank, ...) in each of C11's grammar positions: same verdict, build constraint, identical exported view (types.Identical signatures), stub type-checks against the types-only twin universe and references type names only; " +
+		Rule: "pairs (normal, --stub) for every vector of C01's service factor space departing from the base in <= 2 factors (quick) / <= 3 (thorough), C13's getter truth table rows, 20 literal kinds (incl. multi-line strings) x 5 positions, 256 count vectors (0..3 arguments, fields, calls, tags + decorators on one service), 10 rejected configurations of different classes and 10 boundary strings (empty, blank, ...) in each of C11's grammar positions: same verdict, build constraint, identical exported view (types.Identical signatures), stub type-checks against the types-only twin universe and references type names only; " +
 			"all single departures compiled with -tags gontainerstub, constructor and every getter called (must panic), package excluded without the tag. non-trivial = accepted pair whose views were compared; distinct = distinct configuration",
 		Assumptions: []string{"the types-only twin universe declares the fixture types without any function or variable; a stub that needs more does not type-check against it"},
 		BudgetQuick: 240 * time.Second, BudgetThorough: 1200 * time.Second,
@@ -146,6 +146,32 @@ func init() {
 				mi, cfg := mi, cfg
 				id := fmt.Sprintf("many-imports/%d", mi)
 				w.Case(id, func(c *C) { pair(c, id, []File{{"c.yaml", cfg.YAML()}}, false, P(true)) })
+			}
+			// how many of each: 0..3 arguments, fields, calls and tags on one service (and as many decorators) - accepted in
+			// both modes, same API
+			for v := 0; v < 256; v++ {
+				na, nf, nc, nt := v&3, (v>>2)&3, (v>>4)&3, (v>>6)&3
+				id := fmt.Sprintf("counts/args=%d/fields=%d/calls=%d/tags=%d", na, nf, nc, nt)
+				w.Case(id, func(c *C) {
+					cfg := &Cfg{Meta: stdMeta(), Params: []Param{{"p", 1}}}
+					sv := Service{Name: "sut", Constructor: P("pk.New"), Getter: P("GetSut"), Type: P("*pk.Obj")}
+					for i := 0; i < na; i++ {
+						sv.Args = append(sv.Args, []any{"%p%", "@dep", 3}[i])
+					}
+					for i := 0; i < nf; i++ {
+						sv.Fields = append(sv.Fields, KV{[]string{"F1", "F2", "f3"}[i], []any{"x%p%", "@dep", nil}[i]})
+					}
+					for i := 0; i < nc; i++ {
+						sv.Calls = append(sv.Calls, []Call{{Method: "Set1", Args: []any{"@dep"}}, {Method: "With1", Args: []any{1, 2}, Immutable: P(true)}, {Method: "Set2", NoArgs: true}}[i])
+					}
+					for i := 0; i < nt; i++ {
+						t := fmt.Sprintf("tg%d", i)
+						sv.Tags = append(sv.Tags, Tag{Name: t, Priority: P(i)})
+						cfg.Decorators = append(cfg.Decorators, Decorator{Tag: t, Decorator: "pk.Dec1", Args: []any{"%p%", "@dep"}[:i%3]})
+					}
+					cfg.Services = []Service{sv, {Name: "dep", Constructor: P("pk2.New")}}
+					pair(c, id, []File{{"c.yaml", cfg.YAML()}}, false, P(true))
+				})
 			}
 			// boundary strings (empty, blank, a digit, a separator) in every grammar position of C11: whatever the verdict
 			// is, it is the same in both modes
